@@ -238,9 +238,9 @@ def run_c19(tier):
 def plan(prop, tier):
     q = tier == "quick"
     if prop in ("C01", "C11", "C10"):
-        return conc_e2(prop, tier, 6000 if q else 300_000) + conc_e1(prop, tier, 4 if q else 60) + conc_miri(prop, tier, 8 if q else 16, 3 if q else 24)
+        return conc_e2(prop, tier, 6000 if q else 1_200_000) + conc_e1(prop, tier, 4 if q else 90, 2 if q else 4) + conc_miri(prop, tier, 8 if q else 16, 3 if q else 48)
     if prop in ("C02", "C03"):
-        return conc_e2(prop, tier, 6000 if q else 300_000) + conc_e1(prop, tier, 5 if q else 60) + conc_miri(prop, tier, 8 if q else 16, 2 if q else 16)
+        return conc_e2(prop, tier, 6000 if q else 1_000_000) + conc_e1(prop, tier, 5 if q else 90, 2 if q else 4) + conc_miri(prop, tier, 8 if q else 16, 2 if q else 32)
     if prop == "C16":
         build("plain", "xbuild", ("--features", "pb"))
         build("nopb", "xbuild")
